@@ -1358,6 +1358,10 @@ impl SpendNet {
                                             let (s, l) = pushes[(r as usize) % n_sigs];
                                             let old = unl[s + l - 1];
                                             let mut alt = STD_FLAGS[(r as usize / 3) % STD_FLAGS.len()];
+                                            if r % 5 == 0 {
+                                                // a value outside the twelve standard flag bytes
+                                                alt = [0x00u8, 0x04, 0x05, 0x40, 0x44, 0x80, 0xc0, 0xff][(r as usize / 5) % 8];
+                                            }
                                             if alt == old {
                                                 alt = if r % 2 == 0 { 0x04 } else { STD_FLAGS[((r as usize / 3) + 1) % STD_FLAGS.len()] };
                                             }
